@@ -15,6 +15,7 @@ import Driver.StreamCase
 import Driver.PathCase
 import Driver.AliasCase
 import Driver.TimeCase
+import Driver.TypedCase
 
 open Jl
 
@@ -30,6 +31,8 @@ def runLine (line : String) : Driver.Result :=
     Driver.StreamCase.runStream prop ti to proc reader writer ext impl
   | ["path", _, row, op, path, val, ext, impl] => Driver.PathCase.runPath row op path val ext impl
   | ["probe", _, what, impl] => Driver.PathCase.runProbe what impl
+  | ["typed", _, f, ty, src, ext, w, b1, b2] => Driver.TypedCase.runTyped f ty src ext w b1 b2
+  | ["twice", _, zone, ti, to, line, ext, first, second] => Driver.TypedCase.runTwice zone ti to line ext first second
   | ["timert", _, zone, src, ext, s1, s2, s3, s4] => Driver.TimeCase.runCase zone src ext s1 s2 s3 s4
   | ["alias", _, tmpl, ops, ext, obs] => Driver.AliasCase.runCase tmpl ops ext obs
   | ["conc", _, tmpl, cfg, impl] =>
